@@ -38,6 +38,16 @@ CHECKS = {
   "Every reachable state (cap 6 quick / 7 thorough) of two DOMs whose instances carry UniqueId tokens from {none,u1,u2,nil}; after every transition uniqueness, preservation-unless-collision and freshness are checked and the private bookkeeping set is probed with every token.",
   "Token alphabet of 3 ids + generated ids; builders with pairwise distinct tokens; overlapping clone_multiple excluded in this mode (entry order would matter).",
   "5/C12"),
+ "C14": ("codec", "model_checking",
+  "bounded-exhaustive enumeration of attribute maps through the real encoder/decoder and through an independent codec written from docs/attributes.md (bound to the document's worked examples)",
+  "Every map of the bounded space (<=3 entries, 4 names, every alphabet value of the 19 supported types) is encoded and decoded by rbx_types, decoded by the independent decoder, and re-encoded by the independent encoder for rbx_types to decode; 0/1-entry maps also travel through a binary and an XML file.",
+  "Independent codec harness/src/c14.rs::specattr reproduces the 11 worked examples of the document before any verdict; the document's NumberRange example contradicts its prose (prose followed).",
+  "5/C14"),
+ "C17": ("serdex", "model_checking",
+  "bounded-exhaustive enumeration of Variant values through every serde_json entry point, bincode and MessagePack, exhaustive sweeps of the finite domains (all u16 BrickColor numbers, all bit sets), text forms of Ref/UniqueId over boundary values, and every allValues.json sample",
+  "Identity is checked bit-exactly for every case; the finite domains are swept completely; allValues.json is decoded through three entry points and re-encoded.",
+  "'all 2^128 Refs' is covered over 0, MAX and every single-bit value only; JSON cannot carry non-finite floats.",
+  "5/C17"),
  "C18": ("sched", "model_checking",
   "stateless DFS over all thread interleavings (iterated preemption bounding, unbounded for 2 threads) of the real SharedString code under a deterministic baton scheduler with cfg-hook yield points",
   "Every schedule of 2 threads x programs of <=2 (quick) / <=3 (thorough) new/clone/drop operations over two colliding contents, with 0-1 pre-existing shared handle, unbounded preemptions; 3-thread configurations under a preemption bound. At every consistent cut: live handles with equal contents share one buffer; per handle: bytes, ==, Hash; no panic/deadlock; intern table empty once everything is dropped.",
@@ -88,7 +98,8 @@ def main():
         "engines": [
             {"name": "domx", "path": "harness/src/domx.rs", "serves_properties": ["C09", "C10", "C11", "C12"],
              "kind_free_text": "explicit-state BFS whose transition function calls the real WeakDom methods; reference model in lock-step (harness/src/dommodel.rs)"},
-            {"name": "codec", "path": "harness/src/sweeps.rs", "serves_properties": ["C01", "C02"],
+            {"name": "serdex", "path": "harness/src/c17.rs", "serves_properties": ["C17"], "kind_free_text": "bounded-exhaustive value enumeration through serde entry points"},
+            {"name": "codec", "path": "harness/src/sweeps.rs", "serves_properties": ["C01", "C02", "C14"],
              "kind_free_text": "bounded-exhaustive case enumeration (harness/src/codec.rs) through the real codecs in forked workers; expectations from plans + specdb"},
             {"name": "sched", "path": "harness/src/sched.rs", "serves_properties": ["C18", "C12"],
              "kind_free_text": "deterministic baton scheduler over real OS threads; stateless DFS over choice vectors with iterated preemption bound; yield points injected by cfg(rbx_dom_verif) shims in rbx_types"},
